@@ -287,7 +287,7 @@ def frozen_in_training(ctx):
             paths = it.explore(lambda: fn(Opaque("key"), dist, Opaque("x"), loss_fn=LossFn(), max_epochs=SV(z3.Int("max_epochs")), max_patience=SV(z3.Int("max_patience")),
                                           batch_size=SV(z3.Int("batch_size")), return_best=SV(z3.Bool("return_best")), optimizer=Opaque("any optimizer"), show_progress=False))
         normal = [p for p in paths if p.outcome == "return"]
-        ctx.oblige(f"C12/{loop}/struct/returns", len(normal) >= 1, [], props, kind="struct", fn=fnq)
+        ctx.oblige(f"C12/{loop}/struct/returns", len(normal) >= 1, [], props, kind="struct", fn=fnq, replay=dict(kind="c12", vars={}))
         seen_obl = set()
         for i, p in enumerate(normal):
             for em in p.obligations:
@@ -301,7 +301,7 @@ def frozen_in_training(ctx):
             ctx.oblige(f"C12/{loop}/post/frozen_and_non_floating_leaves_identical#{i}", bool(ok), [], props, kind="struct", fn=fnq, replay=dict(kind="c12", vars={}),
                        note="returned model = combine(params', static): NonTrainable subtrees, ints, bools and non-arrays are the very same terms as in the input model")
         pts = seen.get("params_trees", [])
-        ctx.oblige(f"C12/{loop}/post/optimiser_never_sees_frozen_leaves", len(pts) >= 1 and all(struct_ok(t) for t in pts), [], props, kind="struct", fn=fnq)
+        ctx.oblige(f"C12/{loop}/post/optimiser_never_sees_frozen_leaves", len(pts) >= 1 and all(struct_ok(t) for t in pts), [], props, kind="struct", fn=fnq, replay=dict(kind="c12", vars={}))
 
 
 @family("wrappers/get_ravelled_pytree_constructor", ["C12", "C09"])
